@@ -16,16 +16,6 @@ Next == /\ Len(tbl) < MaxTable
         /\ \E i \in 1..NP, ms \in MethodSets : Register(i, ms)
         /\ UNCHANGED opts
 
-\* compact export: one integer per (method, path) cell
-\*   0 notfound | r direct | 100+r via HEAD->GET | 200+r via fallback | 1000+bitmask(allowed methods in Nine order)
-Pow2(n) == 2 ^ n
-Mask(S) == LET bit(i) == IF Nine[i] \in S THEN Pow2(i - 1) ELSE 0
-           IN bit(1) + bit(2) + bit(3) + bit(4) + bit(5) + bit(6) + bit(7) + bit(8) + bit(9)
-Code(res) == CASE res.kind = "notfound" -> 0
-               [] res.kind = "notallowed" -> 1000 + Mask(res.allow)
-               [] res.via = "direct" -> res.r
-               [] res.via = "head" -> 100 + res.r
-               [] res.via = "fallback" -> 200 + res.r
 QSeq == SetToSeq(ReqQs)
 Line == [t |-> tbl, opts |-> [hmna |-> opts.hmna, hfb |-> opts.hfb, icpt |-> opts.icpt],
          effq |-> IF opts.icpt = <<>> THEN 0 ELSE EffQ(1, FALSE),
